@@ -91,7 +91,7 @@ func checkC04(c *Ctx) {
 		for _, r := range Returns(cw) {
 			d := Desc(RetVals(r)[0])
 			atoms := AtomStrings(Guards(r))
-			if len(atoms) == 1 && atoms[0] == "len(writers) != 0" {
+			if len(atoms) == 1 && atoms[0] == "len(writers) > 0" {
 				n++
 				c.Check(d == "Lock(NewMultiWriteSyncer(writers...))" || d == "Lock(NewMultiWriteSyncer(writers))", "R4.4", cw.String(), "locks-combined", r.Pos(), "a non-empty combination is returned wrapped in zapcore.Lock (%s)", d)
 			}
